@@ -549,6 +549,9 @@ fn run_case(rt: &Runtime, w: &World, c: &[u64]) -> Option<(Vec<u64>, Vec<u64>)> 
                         Some(SupportedTransport::Tcp) => et,
                         Some(SupportedTransport::WebSocket) => ew,
                         None => false,
+                        // only when the harness is built with its optional `quic` feature
+                        #[cfg(feature = "quic")]
+                        Some(SupportedTransport::Quic) => false,
                     };
                     installed && a.last() == Some(&(10, peer))
                 });
